@@ -3798,7 +3798,7 @@ func (d *Document) parseContentTypes() error {
 
 	// 解析XML
 	var contentTypes ContentTypes
-	if err := xml.Unmarshal(contentTypesData, &contentTypes); err != nil {
+	if err := unmarshalXMLPart(contentTypesData, &contentTypes); err != nil {
 		return WrapError("parse_content_types", err)
 	}
 
@@ -3823,7 +3823,7 @@ func (d *Document) parseRelationships() error {
 
 	// 解析XML
 	var relationships Relationships
-	if err := xml.Unmarshal(relsData, &relationships); err != nil {
+	if err := unmarshalXMLPart(relsData, &relationships); err != nil {
 		return WrapError("parse_relationships", err)
 	}
 
@@ -3869,7 +3869,7 @@ func (d *Document) parseDocumentRelationships() error {
 
 	// 解析XML
 	var relationships Relationships
-	if err := xml.Unmarshal(docRelsData, &relationships); err != nil {
+	if err := unmarshalXMLPart(docRelsData, &relationships); err != nil {
 		return WrapError("parse_document_relationships", err)
 	}
 
